@@ -251,8 +251,10 @@ class GaussianModel:
         s3_client = s3.S3CsvUtil(TARGET_BUCKET)
         # type(aggregate) == list
         aggregate_string = aggregate[-1]
-        path = f"{S3_FILE_PATH}/{election_id}/gaussian/{office}/{geographic_unit_type}\
-            /{estimand}-{aggregate_string}-{alpha}/conformalization_data"
+        path = (
+            f"{S3_FILE_PATH}/{election_id}/gaussian/{office}/{geographic_unit_type}"
+            f"/{estimand}-{aggregate_string}-{alpha}/conformalization_data"
+        )
         conformalization_data_csv = convert_df_to_csv(conformalization_data)
         s3_client.put(path, conformalization_data_csv)
 
@@ -265,7 +267,9 @@ class GaussianModel:
         s3_client = s3.S3CsvUtil(TARGET_BUCKET)
         # type(aggregate) == list
         aggregate_string = aggregate[-1]
-        path = f"{S3_FILE_PATH}/{election_id}/gaussian/{office}/\
-            {geographic_unit_type}/{estimand}-{aggregate_string}-{alpha}/bounds"
+        path = (
+            f"{S3_FILE_PATH}/{election_id}/gaussian/{office}/"
+            f"{geographic_unit_type}/{estimand}-{aggregate_string}-{alpha}/bounds"
+        )
         gaussian_fit_csv = convert_df_to_csv(gaussian_fit)
         s3_client.put(path, gaussian_fit_csv)
